@@ -2178,7 +2178,9 @@ class SQLCompiler(Compiled):
                     replacement_expressions[escaped_name] = (
                         self.render_literal_bindparam(
                             parameter,
-                            render_literal_value=parameters.pop(escaped_name),
+                            # "parameters" is keyed by the un-escaped names
+                            # (callers use escape_names=False)
+                            render_literal_value=parameters.pop(name),
                         )
                     )
                 continue
